@@ -337,6 +337,8 @@ def builtin_call(ex, name, e, env):
         raise Unsupported("hasattr")
     if name == "print":
         return None
+    if name in ("log10", "sqrt", "cos", "sin") and name not in env:
+        return module_call(ex, "math." + name, e, env)
     if name == "factorial":
         return factorial_model(ex, to_int(lift(A(0))), e)
     if name == "prod":
